@@ -50,6 +50,10 @@ func (o Op) String() string {
 		return fmt.Sprintf("append[%d..%d]", o.Lo, o.Hi)
 	case "gapappend":
 		return fmt.Sprintf("append{%d,%d}", o.Lo, o.Hi)
+	case "revappend":
+		return fmt.Sprintf("append[%d..%d reversed]", o.Lo, o.Hi)
+	case "burstrestart":
+		return fmt.Sprintf("append-each[%d..%d]+stop+start", o.Lo, o.Hi)
 	case "delete":
 		return fmt.Sprintf("delete[%d,%d)", o.From, o.To)
 	}
@@ -190,6 +194,32 @@ func (w *World) Apply(op Op) (err error, pan string) {
 			w.M[op.Lo], w.M[op.Hi] = true, true
 			w.ExpectNonEmpty = true
 		}
+	case "revappend": // one Append call with the slice in descending order
+		hs := w.C.Slice(op.Lo, op.Hi)
+		for i, j := 0, len(hs)-1; i < j; i, j = i+1, j-1 {
+			hs[i], hs[j] = hs[j], hs[i]
+		}
+		err, pan = vk.TryErr(func() error { return w.St.Append(ctx, hs...) })
+		if err == nil && pan == "" {
+			for h := op.Lo; h <= op.Hi; h++ {
+				w.M[h] = true
+			}
+			w.ExpectNonEmpty = true
+		}
+	case "burstrestart": // one Append per header, then Stop at once (queue still full), then reopen
+		err, pan = vk.TryErr(func() error {
+			for h := op.Lo; h <= op.Hi; h++ {
+				if e := w.St.Append(ctx, w.C[h]); e != nil {
+					return e
+				}
+				w.M[h] = true
+				w.ExpectNonEmpty = true
+			}
+			if e := w.Close(); e != nil {
+				return fmt.Errorf("Stop: %w", e)
+			}
+			return w.open()
+		})
 	case "delete":
 		w.settle()
 		head, tail := w.headTail()
